@@ -50,6 +50,7 @@ fn replay(path: &str) -> i32 {
     ctx.replay_mode = true;
     let case = &v["case"];
     match id.as_str() {
+        "C02" | "C03" if case["case"]["engine"] == "envelope" => tree::envelope::replay(&ctx, case),
         "C01" | "C02" | "C03" | "C04" | "C05" | "C08" | "C09" | "C10" | "C12" | "C13" if case["engine"] == "tree" => tree::checks::replay(&ctx, case),
         "C11" => reg::replay_c11(&ctx, case),
         "C06" => kv::replay_c06(&ctx, case),
